@@ -108,15 +108,7 @@ def run_with_failure(case, k):
                 raise Boom()
             return text
         return gtirb_rewriting.Patch.from_function(patch)
-    for (i, t, off, ln, patch, to_proxy) in case.mods:
-        blk = B.gbs[i]
-        p = patch if isinstance(patch, bytes) or patch is None else mk(patch)
-        if t == "ins":
-            ctx.insert_at(blk, off, p)
-        elif t == "del":
-            ctx.delete_at(blk, off, ln, retarget_to_proxy=to_proxy)
-        else:
-            ctx.replace_at(blk, off, ln, p)
+    irgen.register(case, B, ctx, mk)
     raised = None
     try:
         ctx.apply()
@@ -131,7 +123,7 @@ class C05(IRProp):
     id = "C05"
     prop_file = "Properties/C05.v"
     tag = "c05"
-    genopts = dict()
+    genopts = dict(with_ext=True, with_lead=True)
     trusted_base = IRProp.base_trusted + ["gtirb's protobuf serializer (the round trip is tested, not proved)"]
     assumptions = ["failures are injected as exceptions raised by patch callbacks; failures inside the library itself (assertions on inputs it "
                    "refuses) leave the same kind of state and are validated the same way"]
